@@ -542,6 +542,13 @@ func genC01eval(g *G) {
 		add("{foreach $x in $l}"+pr(lf)+",{/foreach}", "loopfuncs", true)
 		add("{foreach $x in $l}{foreach $y in $ll}"+pr(lf)+",{/foreach};{/foreach}", "loopfuncs", true)
 		add("{for $x in range(2)}{let $y: 1 /}"+pr(lf)+"{$y}{/for}", "loopfuncs", true)
+		// two loops of the same variable, nested (lists of different lengths) and one after the other:
+		// after the inner loop the functions speak of the outer one again; after a loop, of nothing
+		add("{foreach $x in $l}{foreach $x in $ll}"+pr(lf)+",{/foreach}"+pr(lf)+";{/foreach}", "loopfuncs-shadow", true)
+		add("{foreach $x in $ll}"+pr(lf)+"{foreach $x in $x}"+pr(lf)+",{/foreach}"+pr(lf)+";{/foreach}", "loopfuncs-shadow", true)
+		add("{for $x in range(3)}{for $x in range(2)}"+pr(lf)+"{/for}:"+pr(lf)+";{/for}", "loopfuncs-shadow", true)
+		add("{foreach $x in $l}{for $x in range(1, 6)}{/for}{foreach $y in $ll}{/foreach}"+pr(lf)+";{/foreach}", "loopfuncs-shadow", true)
+		add("{foreach $y in $ll}{foreach $x in $l}{if isLast($x)}{foreach $x in $y}"+pr(lf)+"{/foreach}{/if}"+pr(lf)+",{/foreach}{/foreach}", "loopfuncs-shadow", true)
 	}
 	// 5. random typed expressions
 	n := g.N(2500, 60000)
@@ -582,6 +589,8 @@ func genC01eval(g *G) {
 	for i := 0; i < g.N(1500, 20000); i++ {
 		addEval(eg.expr(1+g.R.Intn(3), tAny), "-")
 	}
+	// 7. globals files: NAME = <expression> lines through ParseGlobals (values with comment-like text inside string literals)
+	genGlobalsFiles(g)
 }
 
 // ---- C02exec ----
@@ -940,7 +949,7 @@ func genGlobalsFiles(g *G) {
 			case 4:
 				b.WriteString("  " + g.R.Pick(names) + "\t=\t" + eg.atom(tAny) + "  ")
 			case 5:
-				b.WriteString(g.R.Pick(names) + "=" + g.R.Pick([]string{"'a=b'", "1 == 1", "'x' + 1", "1 % 0", "$x.y", "'a' < 1", "-'x'", "null", "[1, 2]", "['k': 1]", "range(3)"}))
+				b.WriteString(g.R.Pick(names) + "=" + g.R.Pick([]string{"'a=b'", "' // '", "'write  // TODO'", "'http://host/a//b'", "'a /* b */ c'", "'# x'", "'a; b'", "'  sp  '", "'\\' // '", "'tab\t//'", "1 == 1", "'x' + 1", "1 % 0", "$x.y", "'a' < 1", "-'x'", "null", "[1, 2]", "['k': 1]", "range(3)"}))
 			default:
 				b.WriteString(g.R.Pick(names) + " = " + eg.expr(1+g.R.Intn(2), ty(1+g.R.Intn(6))))
 			}
